@@ -1,5 +1,6 @@
 """Which worlds decide which property, with how many runs per tier, and what the evidence says."""
 import world_envelope  # noqa: F401
+import world_chain  # noqa: F401
 
 REAL = ["conda_content_trust/*.py (working tree)", "pyca/cryptography + OpenSSL", "json, codecs, io.TextIOWrapper"]
 ASSUME_CRYPTO = ("ed25519 is unforgeable and a random corruption of a signature, key or header does not yield "
@@ -30,3 +31,52 @@ def _env_plan(prop, quick, thorough, must=()):
 PLANS["C01"] = _env_plan("C01", 2500, 200000, ["rejected_with_threshold_minus_1", "accepted_with_exactly_threshold"])
 PLANS["C02"] = _env_plan("C02", 2500, 200000, ["accepted_despite_junk", "accepted_with_exactly_threshold"])
 PLANS["C09"] = _env_plan("C09", 2500, 200000, ["order_independence_checked", "double_sign", "threshold_sweep"])
+
+
+RULE_CHAIN = ("one evaluation = one simulated run of the chain world: 3-10 root key holders, key ceremonies (one event per "
+              "OpenPGP-mode signature, mixed signer implementations), repository, attacker compromising keys and crafting / "
+              "replaying documents from the attack catalogue, network faults (drop, duplicate, delay/reorder, bit flip, "
+              "truncation), 1-2 clients with persisted trusted roots and crash/restart, quiescence phase; non-trivial = at "
+              "least one fault fired and both an adoption and a rejection occurred; distinct = distinct event-log digests")
+CHAIN_STUB = ["key holders, repository, attacker, network, client update loop (harness model of conda's loop)",
+              "SimFS (client cache, ceremony files)", "SimClock", "SimStdout sink", "securesystemslib.gpg.functions (SimGPG stub)"]
+
+
+def _chain_plan(quick, thorough, must=()):
+    return {
+        "level": "exploration",
+        "stages": [{"world": "chain", "runs": {"quick": quick, "thorough": thorough}}],
+        "rule": RULE_CHAIN,
+        "assumptions": [ASSUME_CRYPTO, ASSUME_SAMPLE, "the client's trust anchor (initial root and its cache) is intact",
+                        "bounds: <= 10 keys, <= 60 operations per run, <= 2 clients"],
+        "components": {"real": REAL, "stub": CHAIN_STUB},
+        "must_probe": {"all": list(must)},
+    }
+
+
+PLANS["C03"] = _chain_plan(1500, 150000, ["accepted_at_exact_threshold_both_rules", "old_rule_met_new_rule_missed",
+                                          "new_rule_met_old_rule_missed", "offer_version"])
+PLANS["C04"] = _chain_plan(1500, 150000, ["client_adopted_root", "stale_response_delivered", "client_converged_to_head",
+                                          "attacker_with_quorum_moved_client"])
+
+RULE_C13 = ("global monitor: every call any simulated party makes into a public validator or verifier, in every world, must "
+            "return or raise within the documented families (library hierarchy, TypeError, ValueError; InvalidSignature only "
+            "from the two single-signature primitives), with the documented class when exactly one defect is present; one "
+            "evaluation = one simulated run; non-trivial = at least one fault fired and both outcomes seen")
+PLANS["C13"] = {
+    "level": "exploration",
+    "stages": [{"world": "chain", "runs": {"quick": 1200, "thorough": 100000}},
+               {"world": "envelope", "runs": {"quick": 1200, "thorough": 100000}}],
+    "rule": RULE_C13,
+    "assumptions": [ASSUME_SAMPLE, "scope: values a JSON parser can return, in the argument positions a client, signer or CLI "
+                    "reaches through the simulated seams; arbitrary non-JSON Python objects in every argument position are not covered",
+                    "nesting depth bounded (<= 6) well below the interpreter recursion limit"],
+    "components": {"real": REAL, "stub": CHAIN_STUB},
+}
+PLANS["C16"] = {
+    "level": "exploration",
+    "stages": [{"world": "chain", "runs": {"quick": 1200, "thorough": 100000}}],
+    "rule": RULE_CHAIN,
+    "assumptions": [ASSUME_SAMPLE],
+    "components": {"real": REAL, "stub": CHAIN_STUB},
+}
